@@ -26,6 +26,7 @@ type Plan struct {
 	KVLoss   bool   `json:"kv_loss,omitempty"`   // power loss also drops a suffix of the unsynced key-value units
 	OnlyCut  uint64 `json:"only_cut,omitempty"`  // minimised replay: just this cut (sequence number + 1) ...
 	OnlyDraw int    `json:"only_draw,omitempty"` // ... and this draw (0 = process crash)
+	Nested   int    `json:"nested,omitempty"`    // second crashes cut into a recorded restart (per recorded restart)
 }
 
 func genKnobs(r *simcore.Rand, crash bool) Knobs {
@@ -216,9 +217,14 @@ func gen(crash bool) func(r *simcore.Rand, tier string) any {
 			p.CutSeed = r.Uint64()
 			p.Draws = 1
 			p.MaxCuts = 24
+			p.Nested = 2
 			if tier == "thorough" {
 				p.Draws = 2
 				p.MaxCuts = 0
+				p.Nested = 4
+			}
+			if os.Getenv("VERIF_C39_NESTED") == "0" {
+				p.Nested = 0
 			}
 		}
 		return p
